@@ -80,11 +80,11 @@ theorem expandH_func_stepP (tbl : List MacroDef) (m : MacroDef) (T L rp : HTok) 
 /-- **`expand` on an invocation in the text whose arguments may name object-like macros**: if it
 completes, it has consumed exactly `( … )` as `collect` cuts it, the stored arguments are the
 complete replacements (`ArgsRel`), and the frame of the macro is the only one on the stack -/
-theorem expand_funclikeP (ms0 : List Macro) (hTb : TblOK ms0) (F : Macro) (T lp : Tok) (r : List Tok) (st s2 : St)
+theorem expand_funclikeP (ms0 : List Macro) (hTb : TblOKS ms0) (F : Macro) (T lp : Tok) (r : List Tok) (st s2 : St)
     (args : List (List Tok)) (rest : List Tok) (n : Nat) (hcs : ∀ m, m < n → CallSpec ms0 m)
     (g : GoodP ms0 st) (hctx : st.ctx = [])
     (hTk : T.kind = .TIDENT) (hTh : T.hide = false) (hget : macroget st.macros (T.lit.getD []) = some F)
-    (hsf : SimpleFun F) (hbne : F.body ≠ []) (hraw : st.raw = lp :: r) (hlp : lp.kind = .TLPAREN)
+    (hsf : SimpleFunS F) (hbne : F.body ≠ []) (hraw : st.raw = lp :: r) (hlp : lp.kind = .TLPAREN)
     (hcol : collect F.params 0 0 [] [] r = .ok (args, rest))
     (hok : ArgsOK ms0 r rest) (hane : ∀ a ∈ args, a ≠ [])
     (h : exec n (.expand T) st = .ok s2) :
@@ -139,12 +139,12 @@ theorem expand_funclikeP (ms0 : List Macro) (hTb : TblOK ms0) (F : Macro) (T lp 
               { m := F, i := 0, depth := st.depth, paren := 0, t := st1.rt, done := [], cur := [], str := [c! '"'] } hR rfl
             have habs : ∀ Y, absX ms0 { st with raw := r, newline := false, rt := lp, rb := true } Y = Y :=
               fun Y => absX_nil_ctx ms0 _ Y hctx
-            obtain ⟨stL, ARGS, gL, hcL, hrL, hse, hrel⟩ := efLoopP ms0 hTb F.params F.name hsf.novar k1 (fun m hm => hcs m (by omega)) _ st1 se r
+            obtain ⟨stL, ARGS, gL, hcL, hrL, hse, hrel⟩ := efLoopP ms0 hTb F.params F.name hsf.novar hsf.excl k1 (fun m hm => hcs m (by omega)) _ st1 se r
               (absX ms0 { st with raw := r, newline := false, rt := lp, rb := true } []) [] [] [] args rest hef rfl rfl hdep
               hsf.nonempty g1 hm hcol hok hane rfl (.nil _) (by simp)
               (fun _ => ⟨fun Y => by simp only [List.reverse_nil, List.map_nil, List.nil_append, habs]; exact LinkE.refl _ _,
                          fun hh => absurd rfl hh, fun x hx => by cases hx⟩)
-              (fun _ => habs [])
+              (fun _ => habs []) (fun _ => rfl)
             unfold pushMacro at h
             have hbe : ¬ (F.body.isEmpty = true ∧ T.space = true) := by
               intro hh
